@@ -2,6 +2,7 @@ import Driver.Files
 import Driver.EngineCmd
 import Driver.FmtCmd
 import Driver.NcchCmd
+import Driver.CiaCmd
 open Pyctr
 
 /-- `(fileops NODE (OP …))` → one rendered output per op, then the bottom buffers -/
@@ -30,6 +31,7 @@ def handle (line : String) : String :=
     | "fileops" => handleFileOps args
     | "aesenc" | "aesdec" | "sha256" | "sha1" => handlePrim cmd args
     | "engine" => handleEngine args
+    | "cia-open" | "cia-ops" => handleCia cmd args
     | "ncch-open" | "ncch-ops" => handleNcch cmd args
     | "romfs-parse" | "romfs-lookup" | "romfs-rep" => handleRomfs cmd args
     | "tmd-load" | "tmd-roundtrip" | "tmd-ser" => handleTmd cmd args
